@@ -923,6 +923,12 @@ where
         }
         data.open_files[file_idx].entry.attributes.set_archive(true);
         data.open_files[file_idx].entry.mtime = self.time_source.get_timestamp();
+        if bytes_to_write < buffer.len() {
+            // The file has reached the largest size the format allows. What
+            // fitted below that limit has been written (as when the volume
+            // runs full half-way); the rest must not be reported as written.
+            return Err(Error::DiskFull);
+        }
         Ok(())
     }
 
